@@ -9,12 +9,12 @@ HERE = os.path.dirname(os.path.dirname(os.path.abspath(__file__)))
 CHECKS = {
  "C01": ("exploration",
   "lock-step reference-model monitor on CPU.Step (differential oracle, bus/state monitors)",
-  "Every one of the 930 implemented encodings is executed through the real CPU.Step from thousands (quick) / hundreds of thousands (thorough) of boundary-biased pre-states on a recording memory and device; an independent reference model (validated on every run against the 134 hardware CRCs of zexdoc/zexall) is stepped from the identical pre-state and all registers, flags, I, IFF1/2, IM, HALT, the full memory image and the bytes sent to ports are compared. Held on the executions observed; sampled, not exhaustive (pre-state space ~2^230 per encoding).",
+  "Every one of the 930 implemented encodings is executed through the real CPU.Step from thousands (quick) / hundreds of thousands (thorough) of boundary-biased pre-states on a recording memory and device; an independent reference model (validated on every run against the 134 hardware CRCs of zexdoc/zexall) is stepped from the identical pre-state and all registers, flags, I, IFF1/2, IM, HALT, the full memory image and the bytes sent to ports are compared. Held on the executions observed; sampled, not exhaustive (pre-state space ~2^230 per encoding). Later rounds added: chains on one CPU object (value copies, accepted requests in between), the bundled memory types handed over directly, a pass with short / read-only memories, requests raised by callbacks during the instruction (DESIGN 12-20).",
   "Trusted: reference model ref/ (hardware-CRC self-test), tolerance table of DESIGN 2.3, Go toolchain.",
   "DESIGN.md §3 C01"),
  "C05": ("exploration",
   "bus monitor (recording Memory/IO) compared with the reference model's bus log per Step",
-  "Same workload as C01; the recording Memory/IO logs every Get/Set/In/Out of each Step and the multiset of reads, multiset of writes and ordered port log are compared with the reference model's machine-cycle log. Held on the Steps observed.",
+  "Same workload as C01; the recording Memory/IO logs every Get/Set/In/Out of each Step and the multiset of reads, multiset of writes and ordered port log are compared with the reference model's machine-cycle log. Held on the Steps observed. Includes the pass without I/O device, the short-memory / ROM pass and requests raised by callbacks during the instruction (the Step's traffic must be the instruction's alone).",
   "Trusted: reference model's bus log (manual machine-cycle tables); order inside a Step is not compared (multisets), as the property states.",
   "DESIGN.md §3 C05"),
  "C02": ("exploration",
@@ -29,12 +29,12 @@ CHECKS = {
   "DESIGN.md §3 C03"),
  "C11": ("exploration",
   "metamorphic twin monitor (DD form from S vs FD form from swap(S)), no model",
-  "For all 255 second bytes after DD/FD and all 256 fourth bytes after DDCB/FDCB, thousands of boundary-biased states: the FD form run from the IX/IY-swapped state must give the swapped post-state, the same memory/port access sequence (except the prefix byte's value) and the same written image; each form is re-run with the other index register perturbed and must neither read nor write it; invalid-code warnings must agree pairwise.",
+  "For all 255 second bytes after DD/FD and all 256 fourth bytes after DDCB/FDCB, thousands of boundary-biased states: the FD form run from the IX/IY-swapped state must give the swapped post-state, the same memory/port access sequence (except the prefix byte's value) and the same written image; each form is re-run with the other index register perturbed and must neither read nor write it; invalid-code warnings must agree pairwise. Also on DumbMemory directly, with both forms supplied by a mode-0 device, on a copy-on-write memory, and with a bus hook watching the other index register at every access.",
   "No reference model: a defect mirrored identically in both tables is C01's business. Cases where an operand aliases the prefix byte's own address are skipped (the law does not apply there).",
   "DESIGN.md §3 C11"),
  "C14": ("exploration",
   "state monitor on IR around every Step; direct counting rule plus reference model",
-  "All 930 encodings x all 256 starting R x 5 I values x IFF2: the low 7 bits of R must advance by the number of opcode fetches of the decode table (2 or 3 accepted for DDCB/FDCB), bit 7 and I may change only through LD R,A / LD I,A, LD A,R / LD A,I value and flags by direct formula and by the reference model; multi-Step programs (block repeats 1..300, Steps on HALT) across the 7F->00 wrap.",
+  "All 930 encodings x all 256 starting R x 5 I values x IFF2: the low 7 bits of R must advance by the number of opcode fetches of the decode table (2 or 3 accepted for DDCB/FDCB), bit 7 and I may change only through LD R,A / LD I,A, LD A,R / LD A,I value and flags by direct formula and by the reference model; multi-Step programs (block repeats 1..300, Steps on HALT) across the 7F->00 wrap. Also prefix chains (R advanced by the chain's length however it is split into Steps), short DumbMemory fetches, repeats without I/O device, repeating instructions patched to NOPs by the host.",
   "R across interrupt acceptance is not compared. Other registers sampled.",
   "DESIGN.md §3 C14"),
  "C15": ("exploration",
@@ -44,22 +44,22 @@ CHECKS = {
   "DESIGN.md §3 C15"),
  "C16": ("exploration",
   "complete enumeration through the exported accessors",
-  "All 256 masks x 256 F x 256 A for GetFlag/SetFlag/ResetFlag, the eight constants, all 65536 values for SetU16/U16/Hi/Lo: finite and enumerated completely in both tiers (exhaustive: true).",
+  "All 256 masks x 256 F x 256 A for GetFlag/SetFlag/ResetFlag, the eight constants, all 65536 values for SetU16/U16/Hi/Lo: finite and enumerated completely in both tiers (exhaustive: true). The accessors are also driven through a CPU at 14 moments of its life and on a GPR at every address alignment.",
   "None beyond the Go toolchain.",
   "DESIGN.md §3 C16"),
  "C19": ("exploration",
   "output monitor on the built cmd binaries run on generated inputs",
-  "The built cim2bin/cim2cas binaries are executed on generated images (boundary lengths incl. last byte exactly at FFFF, arbitrary contents, offsets 0..FFFF, names over all byte values incl. multi-byte UTF-8, default name) and the output file is compared byte for byte with the container layout written out from the property.",
+  "The built cim2bin/cim2cas binaries are executed on generated images (boundary lengths incl. last byte exactly at FFFF, arbitrary contents, offsets 0..FFFF, names over all byte values incl. multi-byte UTF-8, default name) and the output file is compared byte for byte with the container layout written out from the property. Includes conversion in place (same path, symbolic / hard link) and stale pre-existing outputs of every size incl. exactly the right one.",
   "I/O error paths are outside the property.",
   "DESIGN.md §3 C19"),
  "C04": ("exploration",
   "closed-form specification monitor on CPU.Step (condition table, address arithmetic, stack layout) with bus log",
-  "Every conditional opcode x all 256 F, DJNZ x all 256 B, relative jumps x all 256 offsets, and the unconditional transfers, each x hundreds/thousands of boundary samples (PC at FFFD..FFFF, SP at 0/1/2/FFFF, stack bytes overlapping the instruction): whole expected States, exact stack writes and permitted data reads from a 20-line closed form independent of the reference model; two-Step laws CALL;RET and PUSH;POP for all six pairs.",
+  "Every conditional opcode x all 256 F, DJNZ x all 256 B, relative jumps x all 256 offsets, and the unconditional transfers, each x hundreds/thousands of boundary samples (PC at FFFD..FFFF, SP at 0/1/2/FFFF, stack bytes overlapping the instruction): whole expected States, exact stack writes and permitted data reads from a 20-line closed form independent of the reference model; two-Step laws CALL;RET and PUSH;POP for all six pairs. Also: the same transfers supplied by a mode-0 device, on the bundled memory types directly, and pushes on a copy-on-write memory that replaces CPU.Memory during the first write.",
   "RETI IFF tolerance. Data sampled; control bits exhaustive.",
   "DESIGN.md §3 C04"),
  "C06": ("exploration",
   "abstract interrupt-controller model stepped alongside CPU.Step; exhaustive control product plus seeded histories on an instruction tape",
-  "All 48 combinations of request type x IM x IFF1 x IFF2 x running/halted with boundary data (all 256 vector bytes, 8 RST + CALL in mode 0, PC=FFFF, SP wrap, stack bytes meeting PC) judged by the controller model transcribed from the property (consumption, handler address, IFF1/IFF2, SP, stack bytes, no program fetch; refused = identical to the twin Step); tens of thousands of histories over EI/DI/RETN/RETI/HALT/LD A,I/IM n/raise NMI/raise INT with nesting depth <= 3; handler-notification sweep over all 930 encodings.",
+  "All 48 combinations of request type x IM x IFF1 x IFF2 x running/halted with boundary data (all 256 vector bytes, 8 RST + CALL in mode 0, PC=FFFF, SP wrap, stack bytes meeting PC) judged by the controller model transcribed from the property (consumption, handler address, IFF1/IFF2, SP, stack bytes, no program fetch; refused = identical to the twin Step); tens of thousands of histories over EI/DI/RETN/RETI/HALT/LD A,I/IM n/raise NMI/raise INT with nesting depth <= 3; handler-notification sweep over all 930 encodings. Further phases: all 1786 openings for handler notifications; mode 0 with ANY implemented instruction supplied by the device against the reference model; 2..5 acceptances in a row on one CPU object with the vector table rewritten / the memory object replaced in between.",
   "EI-delay and RETI-IFF tolerances; mode-0 pushed value is C07's subject; odd mode-2 vectors accept masked or unmasked table address.",
   "DESIGN.md §3 C06"),
  "C07": ("fault_enumeration",
@@ -79,27 +79,27 @@ CHECKS = {
   "DESIGN.md §3 C09"),
  "C10": ("exploration",
   "per-Step digest monitors (determinism, rebuild-from-public-state at every boundary vs hidden-state copy, memory-type independence) under the Go race detector",
-  "Generated programs with callback-raised interrupts: two runs equal per Step; at EVERY Step boundary a CPU rebuilt from copies of States+memory+device+pending request runs against a value copy of the original (which keeps hidden per-instance state), with and without a fresh request; 2/4/8/16 goroutines each driving its own CPU against the sequential baseline; alternating CPUs; the same program on DumbMemory/MapMemory/tinycpm.Memory handed over directly; race reports collected (halt_on_error=0) and attributed to z80 frames.",
+  "Generated programs with callback-raised interrupts: two runs equal per Step; at EVERY Step boundary a CPU rebuilt from copies of States+memory+device+pending request runs against a value copy of the original (which keeps hidden per-instance state), with and without a fresh request; 2/4/8/16 goroutines each driving its own CPU against the sequential baseline; alternating CPUs; the same program on DumbMemory/MapMemory/tinycpm.Memory handed over directly; race reports collected (halt_on_error=0) and attributed to z80 frames. Also: the memory object replaced by an equal one during the run, device callbacks that panic and are recovered, host-owned request objects re-assigned at every firing, constructor independence, CPUs without I/O device, no-op handlers on one side.",
   "Race detector finds only races that the executed interleavings expose.",
   "DESIGN.md §3 C10"),
  "C12": ("exploration",
   "crash-isolated worker processes with recover(), logical bus-access watchdogs and the log monitor",
-  "All 65536 two-byte openings (and all DDCB/FDCB fourth bytes) as single Steps; arbitrary byte programs on every memory/IO configuration class (short DumbMemory with the program cut off, MapMemory, nil/short IO, handed over directly or monitored), arbitrary States (IM out of range) and Interrupt values (any Type, empty/long data, injected at random Steps, at FFFF, from inside callbacks); Run on generated programs must return when a Step-driven twin executes a HALT. Invalid-opcode Steps must only consume their bytes.",
+  "All 65536 two-byte openings (and all DDCB/FDCB fourth bytes) as single Steps; arbitrary byte programs on every memory/IO configuration class (short DumbMemory with the program cut off, MapMemory, nil/short IO, handed over directly or monitored), arbitrary States (IM out of range) and Interrupt values (any Type, empty/long data, injected at random Steps, at FFFF, from inside callbacks); Run on generated programs must return when a Step-driven twin executes a HALT. Invalid-opcode Steps must only consume their bytes. Run cases use background, live, already cancelled, long-expired and cancelled-during-the-HALT-fetch contexts; every 16th run case Steps 4 CPUs from 4 goroutines over unsupported encodings.",
   "Hangs that make no bus access are caught only by a 2 x 20 s no-progress monitor in the worker (last resort).",
   "DESIGN.md §3 C12"),
  "C13": ("exploration",
   "race detector + logical promptness counter in bus callbacks + Step-boundary twin + goroutine-profile accounting",
-  "Thousands of Run calls over loop programs (incl. loops of prefixed instructions only, varying starting R) x cancellation modes (inside the bus callback at chosen accesses, from another goroutine, before the call, expired/1 ms deadlines, cancelled parent, never) x GOMAXPROCS 1/2/16: error identity, at most 3000 further bus accesses once the context is done (a count, each followed by a yield/1 ms sleep), final state equal to a whole number of Steps of a twin, no goroutine with z80 frames left after each batch (before and after cancelling the batch's contexts), zero race reports.",
+  "Thousands of Run calls over loop programs (incl. loops of prefixed instructions only, varying starting R) x cancellation modes (inside the bus callback at chosen accesses, from another goroutine, before the call, expired/1 ms deadlines, cancelled parent, never) x GOMAXPROCS 1/2/16: error identity, at most 3000 further bus accesses once the context is done (a count, each followed by a yield/1 ms sleep), final state equal to a whole number of Steps of a twin, no goroutine with z80 frames left after each batch (before and after cancelling the batch's contexts), zero race reports. Modes include contexts with causes, device panics and runtime.Goexit in mid-Run; every other call re-uses one CPU object.",
   "Promptness bound is logical (accesses), the sleeps only hand over the processor.",
   "DESIGN.md §3 C13"),
  "C17": ("exploration",
   "complete comparison of the linked Go tables with records harvested from the canonical images (static decode + walk on the emulator) and pinned digests",
-  "Finite and compared completely (exhaustive: true): image digests vs pins; pointer table located by decoding and by running the canonical program to its own end-of-list test (67 arrivals each); all 65 bytes + description of each of the 2 x 67 cases; no case missing or duplicated; Case.Maxes/Iter.Status against the harness's own port of the counter/shifter.",
+  "Finite and compared completely (exhaustive: true): image digests vs pins; pointer table located by decoding and by running the canonical program to its own end-of-list test (67 arrivals each); all 65 bytes + description of each of the 2 x 67 cases; no case missing or duplicated; Case.Maxes/Iter.Status against the harness's own port of the counter/shifter. The comparison is repeated in a second binary built with -race (build configuration), and the tables are checked not to share storage (append).",
   "pins/ holds digests and records of the pristine images.",
   "DESIGN.md §3 C17"),
  "C18": ("exploration",
   "console/warning/stack monitors around tinycpm runs with breakpoints on every call's return address; end-to-end runs of the built cmd/zexdoc",
-  "Thousands of generated programs of mixed function-2/function-9 calls (strings 0..4096 over every byte but '$', page-straddling addresses), OUT/IN to other ports, JP 0: console bytes in program order, warnings only for non-console traffic, SP and caller code intact after each call, halted at FF03; a sample also through the built binary (stdout, stderr, exit status).",
+  "Thousands of generated programs of mixed function-2/function-9 calls (strings 0..4096 over every byte but '$', page-straddling addresses), OUT/IN to other ports, JP 0: console bytes in program order, warnings only for non-console traffic, SP and caller code intact after each call, halted at FF03; a sample also through the built binary (stdout, stderr, exit status). Machines are also built from a zero-value IO, a by-value copy, through Memory.LoadFile; one writer refuses a single Write.",
   "Unsupported BDOS functions have no specified outcome.",
   "DESIGN.md §3 C18"),
 }
@@ -144,7 +144,7 @@ def main():
         }],
         "checks": checks,
         "not_applicable": na,
-        "notes": "All checks: ./check <id> <quick|thorough>; VERIF_SEED selects the PRNG seed; exit 0 held / 1 violation / 2 build failure / 3 inconclusive. fix: commits in /repo: 7ab483f, 163be93, c6b24ce (see known_findings.json).",
+        "notes": "All checks: ./check <id> <quick|thorough>; VERIF_SEED selects the PRNG seed; exit 0 held / 1 violation / 2 build failure / 3 inconclusive. fix: commits in /repo: 7ab483f, 163be93, c6b24ce, af8bac7, 88f7899 (see known_findings.json). 266 seeded changes (seeded/) and 114 property-preserving variants (benign/) document what the checks catch and what they stay silent on (DESIGN.md 12-21).",
     }
     json.dump(m, open(os.path.join(HERE, "MANIFEST.json"), "w"), indent=1)
     print("MANIFEST.json: %d checks, %d not_applicable" % (len(checks), len(na)))
